@@ -45,9 +45,26 @@ def viol(out, contract, signature, detail, replay=None):
     out["violations"].append({"contract": contract, "signature": signature, "detail": detail, "replay": replay or {}})
 
 
+def _restrict(cases, pid):
+    """Drop corpus programs that are declared for other properties only (Prog.only), e.g. programs whose
+    object-dtype columns make per-partition dtypes and string conversion a matter of their own."""
+    try:
+        from vf.rt import corpus as C
+    except Exception:
+        return cases
+    out = []
+    for c in cases:
+        name = c[3] if isinstance(c, tuple) and len(c) >= 4 and isinstance(c[3], str) else None
+        prog = C.PROGRAMS.get(name) if name else None
+        if prog is not None and prog.only is not None and pid not in prog.only:
+            continue
+        out.append(c)
+    return out
+
+
 def run_cases(run, modname, funcname, cases, common=None, nproc=None, chunk=None):
     """Distribute cases; merge counts / violations / samples into `run`."""
-    cases = list(cases)
+    cases = _restrict(list(cases), run.pid)
     if not cases:
         return
     nproc = min(nproc or NPROC, max(1, len(cases)))
